@@ -38,7 +38,7 @@ VARIABLES ep,     \* producer: [par, k, fv, v] parity of the packet being offere
           hold,   \* token offered by the producer and not yet accepted (<<>> if none)
           pk,     \* accepted packets not yet completely delivered: << [fv, pay, done], ... >>, oldest first
           w,      \* number of source beats already delivered of the oldest packet
-          oprev,  \* TRUE iff the source presented a beat in the previous cycle that was not accepted
+          oprev,  \* <<the beat>> the source presented in the previous cycle and that was not accepted, else <<>>
           obs     \* verdict bits and progress flags of the last cycle
 
 cvars == <<ep, hold, pk, w, oprev, obs>>
@@ -135,6 +135,12 @@ DataOk(c, H, n, data) ==
            ELSE IF g < Avail(c, H) THEN data[j + 1] = H.pay[g - c.hl + 1]
            ELSE TRUE                                      \* padding after the end of the packet
       ELSE data[j + 1] = H.pay[Off(c) + g + 1]
+(* two presentations of beat n are the same beat: last, header fields and every byte the layout defines (the  *)
+(* padding bytes after the end of a packet in a Packetizer's final word are don't-cares)                      *)
+SameBeat(c, H, n, b1, b2) ==
+  /\ b1[2] = b2[2] /\ b1[3] = b2[3]
+  /\ \A j \in 0..BPC(c) - 1 :
+       (c.kind = "pk" /\ n * BPC(c) + j >= Avail(c, H)) \/ b1[1][j + 1] = b2[1][j + 1]
 FieldsOk(c, H, fo) ==
   CASE c.kind = "pk" -> TRUE
     [] c.kind = "rt" -> fo = H.fv
@@ -203,7 +209,7 @@ NormO(c, o) == <<o[1], o[2], Bytes2(o[3], o[4], BPC(c)), o[5],
 (* One clock cycle of the contract                                         *)
 CInit ==
   /\ ep = [par |-> 0, k |-> 0, fv |-> <<>>, v |-> 0, prev |-> <<>>]
-  /\ hold = <<>> /\ pk = <<>> /\ w = 0 /\ oprev = FALSE
+  /\ hold = <<>> /\ pk = <<>> /\ w = 0 /\ oprev = <<>>
   /\ obs = [okshow |-> TRUE, okdata |-> TRUE, oklast |-> TRUE, okfields |-> TRUE, okhold |-> TRUE,
             okbound |-> TRUE, srcfire |-> FALSE, sinkfire |-> FALSE, coop |-> FALSE, rdy |-> FALSE,
             act |-> FALSE, owed |-> FALSE]
@@ -234,12 +240,13 @@ CStep(c, iv, o) ==
   /\ hold'  = IF offered /\ ~sinkfire THEN tok ELSE <<>>
   /\ pk'    = IF Len(pk2) <= c.cap THEN pk2 ELSE pk       \* saturate (Bounded is then already false)
   /\ w'     = w2
-  /\ oprev' = (shown /\ ~srcfire)
+  /\ oprev' = IF shown /\ ~srcfire THEN << <<o[3], o[4], o[5]>> >> ELSE <<>>
   /\ obs'   = [okshow   |-> (shown => can),
                okdata   |-> ((shown /\ can) => DataOk(c, Head(P), w, o[3])),
                oklast   |-> ((shown /\ can) => ((o[4] = 1) = ExpLast(c, Head(P), w))),
                okfields |-> ((shown /\ can) => FieldsOk(c, Head(P), o[5])),
-               okhold   |-> (oprev => shown),
+               okhold   |-> (oprev # <<>> => (shown /\ (IF can THEN SameBeat(c, Head(P), w, oprev[1], <<o[3], o[4], o[5]>>)
+                                                     ELSE <<o[3], o[4], o[5]>> = oprev[1]))),
                okbound  |-> Len(pk2) <= c.cap,
                srcfire  |-> srcfire,
                sinkfire |-> sinkfire,
@@ -256,6 +263,6 @@ Causal        == obs.okshow    \* a beat is presented only when the packet strea
 ByteLayout    == obs.okdata    \* every presented byte is the byte Layout(fields) ++ payload prescribes at that position / the realigned payload byte
 LastPlacement == obs.oklast    \* `last` exactly on the final beat of the packet
 HeaderFields  == obs.okfields  \* the header fields presented with every payload beat decode the received header (round trip: equal the sent ones)
-ValidHold     == obs.okhold    \* a presented beat is not withdrawn before it is accepted
+ValidHold     == obs.okhold    \* a presented beat (data, last, header fields) is neither withdrawn nor changed before it is accepted
 Bounded       == obs.okbound   \* accepted packets do not pile up undelivered
 =============================================================================
